@@ -183,6 +183,8 @@ def execute(hs, prop, fmt, oracle, ver, shape, multi, form, ents, absent, trim='
     if multi == 2:
         arg = [g, second_grid(hs)]
         expected.append(SECOND)
+    elif multi == 4:                      # a list holding ONE grid is still a list
+        arg = [g]
     elif multi == 3:                      # the payload grid is the SECOND grid of the document
         arg = [second_grid(hs), g]
         expected.insert(0, SECOND)
@@ -198,7 +200,7 @@ def execute(hs, prop, fmt, oracle, ver, shape, multi, form, ents, absent, trim='
         # the version-appropriate Remove spelling is part of both JSON properties (C02 and C06)
         try:
             jo = json.loads(text)
-            first = (jo[1] if multi == 3 else jo[0]) if isinstance(jo, list) else jo
+            first = (jo[1] if (multi == 3 and len(jo) > 1) else jo[0]) if isinstance(jo, list) else jo
             bad = '-:' if ver == '2.0' else 'x:'
             if _has_value(first, bad, top=True):
                 fails.append(('remove-spelled-for-other-version', {'spelling': bad}, detail))
@@ -215,6 +217,8 @@ def execute(hs, prop, fmt, oracle, ver, shape, multi, form, ents, absent, trim='
             else:
                 src = text
             back = hs.parse(src, mode=mode, single=(multi == 1))
+            if multi == 4 and fmt == 'json' and isinstance(src, str) and not src.lstrip().startswith('['):
+                fails.append(('json-top-level-shape', {}, detail))
         except Exception as e:  # noqa
             detail['exc'] = repr(e)[:600]
             return 'reparse-raised', [('reparse-raised', {'exc': exc_name(e)}, detail)]
@@ -233,7 +237,7 @@ def execute(hs, prop, fmt, oracle, ver, shape, multi, form, ents, absent, trim='
             else:
                 observed = refjson.read(json.loads(text))
                 jo = json.loads(text)
-                if (multi >= 2) != isinstance(jo, list):
+                if (multi >= 2) != isinstance(jo, list) or (multi == 4 and len(jo) != 1):
                     fails.append(('json-top-level-shape', {}, detail))
         except (refzinc.RefZincError, refjson.RefJsonError, ValueError) as e:
             detail['reference_reader'] = str(e)[:400]
@@ -432,14 +436,14 @@ def run_property(ctx, prop, fmt, oracle, module_name):
     if ctx.quick:
         plan = [('3.0', 'full', 1, 'text', 'full', 1), ('2.0', 'flat', 1, 'text', 'full', 1),
                 ('3.0', 'flat', 1, 'text', 'reps', 2), ('3.0', 'full', 1, 'text', 'tiny', 2),
-                ('2.0', 'flat', 2, forms[-1], 'reps', 1), ('3.0', 'full', 2, forms[-1], 'reps', 1), ('3.0', 'flat', 3, 'text', 'reps', 1), ('2.0', 'flat', 3, forms[-1], 'tiny', 2)]
+                ('2.0', 'flat', 2, forms[-1], 'reps', 1), ('3.0', 'full', 2, forms[-1], 'reps', 1), ('3.0', 'flat', 3, 'text', 'reps', 1), ('2.0', 'flat', 3, forms[-1], 'tiny', 2), ('3.0', 'flat', 4, 'text', 'tiny', 1), ('2.0', 'flat', 4, forms[-1], 'tiny', 1)]
         if fmt == 'json':
             plan += [('3.0', 'full', 1, f, 'full', 1) for f in forms[1:]]
             plan += [('2.0', 'flat', 1, 'text', 'reps', 2), ('3.0', 'full', 1, 'text', 'reps', 2)]
     else:
         plan = [('3.0', 'full', 1, 'text', 'full', 1), ('2.0', 'flat', 1, 'text', 'full', 2),
                 ('3.0', 'flat', 1, 'text', 'full', 2), ('3.0', 'full', 1, 'text', 'reps', 2),
-                ('2.0', 'flat', 2, forms[-1], 'full', 1), ('3.0', 'full', 2, forms[-1], 'full', 1), ('3.0', 'full', 3, 'text', 'full', 1), ('2.0', 'flat', 3, forms[-1], 'reps', 2)]
+                ('2.0', 'flat', 2, forms[-1], 'full', 1), ('3.0', 'full', 2, forms[-1], 'full', 1), ('3.0', 'full', 3, 'text', 'full', 1), ('2.0', 'flat', 3, forms[-1], 'reps', 2), ('3.0', 'full', 4, 'text', 'reps', 1), ('2.0', 'flat', 4, forms[-1], 'reps', 1)]
         plan += [('3.0', 'full', 1, f, 'full', 1) for f in forms[1:]]
         if fmt == 'json':
             plan += [('3.0', 'full', 1, 'text', 'full', 2)]
